@@ -41,7 +41,7 @@ PROPS = {  # by path fragment of the touched files
 }
 only = sys.argv[2].split(",") if len(sys.argv) > 2 else None
 jobs = queue.Queue()
-for d in sorted(glob.glob(os.path.join(root, "R*"))):
+for d in sorted(glob.glob(os.path.join(root, "[RT]*"))):
     if os.path.exists(os.path.join(d, "patch.diff")) and (not only or os.path.basename(d) in only):
         jobs.put(d)
 pool = [d for d in sorted(glob.glob("/tmp/ve/[0-9]*")) if os.path.isdir(d)]
@@ -71,6 +71,7 @@ def work(clone):
                     for frag, ps in PROPS.items():
                         if frag in f:
                             props += [p for p in ps if p not in props]
+                props += [p for p in meta.get("closest_properties", []) if p not in props]
                 for p in props:
                     t0 = time.time()
                     rc, out = sh([os.path.join(clone, "check"), p], cwd=clone, env=dict(os.environ, WTF_REPO=wt), timeout=3600)
